@@ -639,3 +639,54 @@ Proof.
 Qed.
 
 Print Assumptions build_package.
+
+(* ---------------------------------------------------------------- inheritances *)
+
+Lemma a_inh_flat : forall i t it, inh_item i t = Some it -> a_flat it = true.
+Proof.
+  intros i t it H. destruct t; try discriminate H; cbn [inh_item] in H; eapply a_ref_flat; eassumption.
+Qed.
+
+Lemma a_inh_tag : forall i t, tag_entries (inh_item i) t =
+  match t with TFrom => a_ref "fromModel" (si_from i) | TTo => a_ref "toModel" (si_to i) | _ => [] end.
+Proof. intros i t. unfold tag_entries. destruct t; cbn [inh_item]; rewrite ?a_ref_entries; reflexivity. Qed.
+
+Ltac a_inh_other :=
+  let t := fresh "t" in let Ht := fresh "Ht" in
+  intros t Ht; rewrite a_inh_tag; destruct t; try (exfalso; apply Ht; reflexivity); try reflexivity;
+  unfold a_ref; repeat match goal with |- context [match ?x with _ => _ end] => destruct x end; reflexivity.
+
+Lemma a_inh_top : forall (f : rinh -> string * UmlBlob.pv -> option rinh) r a b c d,
+  (forall r kv, is_child_key (fst kv) = false -> f r kv = Some r) ->
+  foldM f [("id", a); ("name", b); ("type", c); ("child_0", d)] r = f r ("child_0", d).
+Proof.
+  intros f r a b c d H. cbn [foldM].
+  rewrite (H r ("id", a)) by reflexivity. cbn [bind]. rewrite (H r ("name", b)) by reflexivity. cbn [bind].
+  rewrite (H r ("type", c)) by reflexivity. cbn [bind].
+  destruct (f r ("child_0", d)); reflexivity.
+Qed.
+
+Lemma build_inh : goal_inh.
+Proof.
+  intros S g P v i real Hg Hok HP Hid. unfold inh_ok in Hok. a_split.
+  unfold parse_inheritance. rewrite HP. cbn [bind]. unfold tree_of_inh. rewrite top_explicit.
+  rewrite (a_body _ _ _ ltac:(eassumption) (a_inh_flat i)). cbn [items bind].
+  rewrite a_inh_top by (intros r kv Hc; cbn beta; rewrite Hc; reflexivity).
+  cbn [fst snd]. change (is_child_key "child_0") with true. cbn iota.
+  remember (entries (items_of (tabs 1) (inh_item i) (si_layout i))) as E eqn:HE.
+  assert (Lf : lookup String.eqb "fromModel_0" E = lookup String.eqb "fromModel_0" (a_ref "fromModel" (si_from i))).
+  { subst E. rewrite (a_lookup _ _ _ "fromModel_0" TFrom); [rewrite a_inh_tag; reflexivity | assumption | reflexivity | a_inh_other]. }
+  assert (Lt : lookup String.eqb "toModel_0" E = lookup String.eqb "toModel_0" (a_ref "toModel" (si_to i))).
+  { subst E. rewrite (a_lookup _ _ _ "toModel_0" TTo); [rewrite a_inh_tag; reflexivity | assumption | reflexivity | a_inh_other]. }
+  clear HE. unfold sidx, idx. rewrite Lf, Lt. unfold a_ref.
+  destruct (si_from i) as [|x r] eqn:Ef; [discriminate|]. destruct (si_to i) as [|y r'] eqn:Et; [discriminate|].
+  change ("fromModel" ++ "_0") with "fromModel_0". change ("toModel" ++ "_0") with "toModel_0".
+  cbn [lookup]. rewrite !String.eqb_refl. cbn [bind as_str].
+  rewrite (a_nested S g (x :: r) Hg) by (assumption || discriminate).
+  rewrite (a_nested S g (y :: r') Hg) by (assumption || discriminate). cbn [bind].
+  rewrite (a_last_split S (x :: r)) by (assumption || discriminate).
+  rewrite (a_last_split S (y :: r')) by (assumption || discriminate).
+  unfold rinh0. rewrite Ef, Et, Hid. reflexivity.
+Qed.
+
+Print Assumptions build_inh.
